@@ -68,6 +68,8 @@ set_option maxRecDepth 8000 in
 theorem const_KeyRight : List.lookup "KeyRight" keyConstEnv = some (.int KeyRight) := rfl
 set_option maxRecDepth 8000 in
 theorem const_KeyLeft : List.lookup "KeyLeft" keyConstEnv = some (.int KeyLeft) := rfl
+set_option maxRecDepth 20000 in
+theorem const_KeyKeyPadBegin : List.lookup "KeyKeyPadBegin" keyConstEnv = some (.int KeyKeyPadBegin) := rfl
 set_option maxRecDepth 8000 in
 theorem const_KeyEnd : List.lookup "KeyEnd" keyConstEnv = some (.int KeyEnd) := rfl
 set_option maxRecDepth 8000 in
